@@ -126,6 +126,26 @@ def _trace_validation(ck, prop, wd, runs):
         else:
             print("WARNING %s: a recorded operation sequence is not a behaviour of Protected.tla although no property violation is visible in it - update the specification: %s" % (prop, json.dumps(rej)[:300]))
             ck.cov["model_drift_traces"] = ck.cov.get("model_drift_traces", 0) + 1
+    else:
+        def _corrupt_prot(es):
+            for e in es:
+                if e.get("ev") == "op" and e.get("res") == "Ok":
+                    for a in e["obs"]["allocs"]:
+                        if a["live"] and len(a["pages"]) >= 3 and a["pages"][1] in (0, 4):
+                            a["pages"][1] += 1       # a read-write data page observed as read-only
+                            return "a read-write data page is recorded as read-only"
+            return None
+        if prop == "C14":
+            binding_selftest(ck, "ProtectedTrace", None, tr, _corrupt_prot, "protected trace", timeout=3000)
+        else:
+            def _corrupt_rel(es):
+                for e in es:
+                    for r in e.get("obs", {}).get("rel", []):
+                        if r["nz"] == 0 and r["size"] > 0:
+                            r["nz"] = 3
+                            return "a release is recorded with three non-zero bytes"
+                return None
+            binding_selftest(ck, "ProtectedTrace", None, tr, _corrupt_rel, "protected trace (release)", timeout=3000)
     ck.cov["trace_events_validated"] = len(evs)
     ck.cov["random_runs_validated_by_tlc"] = runs
     ck.cov["evaluations"] += len(evs)
